@@ -61,7 +61,7 @@ Feats == [dup : BOOLEAN, move : BOOLEAN, multi : BOOLEAN, nested : BOOLEAN]
 B(id, name, cls, parent, initial) ==
   [id |-> id, qid |-> id, name |-> name, cls |-> cls, parent |-> parent, priv |-> "PUBLIC", incontents |-> TRUE, inall |-> TRUE,
    bases |-> <<>>, mro |-> IF cls = "Class" THEN <<id>> ELSE <<>>, subclasses |-> {}, doc |-> TRUE, docsrc |-> id,
-   xrefs |-> {}, sumrefs |-> {}, annrefs |-> {}, sigrefs |-> {}, initial |-> initial, dupname |-> FALSE, dupfull |-> FALSE]
+   module |-> "auto", xrefs |-> {}, sumrefs |-> {}, annrefs |-> {}, sigrefs |-> {}, initial |-> initial, dupname |-> FALSE, dupfull |-> FALSE]
 
 SkelObjs(f) ==
   {  B("pk", "pk", "Package", None, "P"),
@@ -122,8 +122,10 @@ SkelObjs(f) ==
   \cup (IF f.move THEN     \* pk/__init__.py: from pk._impl import Moved, mf; __all__ = ['Moved', 'mf']  (re-export move)
      \* mf(x=1) and Moved.mm(self, n=1) have a default value (their docstring linker exists since AST time, before the
      \* move) and their docstrings refer to helper, which stays in pk._impl
-     { [B("pk._impl", "_impl", "Module", "pk", "_") EXCEPT !.priv = "PRIVATE"],
-       B("pk._impl.helper", "helper", "Function", "pk._impl", "H"),
+     \* mf's signature is annotated (rendering it switches linker contexts in a nested way); the docstrings of pk._impl and
+     \* of helper refer to pk.mf, documented on the package page, which is written BEFORE the page of pk._impl
+     { [B("pk._impl", "_impl", "Module", "pk", "_") EXCEPT !.priv = "PRIVATE", !.xrefs = {"pk.mf"}, !.sumrefs = {"pk.mf"}],
+       [B("pk._impl.helper", "helper", "Function", "pk._impl", "H") EXCEPT !.xrefs = {"pk.mf"}, !.sumrefs = {"pk.mf"}],
        [B("pk.mf", "mf", "Function", "pk", "M") EXCEPT !.xrefs = {"pk._impl.helper"}, !.sumrefs = {"pk._impl.helper"}],
        B("pk.Moved", "Moved", "Class", "pk", "M"),
        [B("pk.Moved.mm", "mm", "Function", "pk.Moved", "M") EXCEPT !.xrefs = {"pk._impl.helper"}, !.sumrefs = {"pk._impl.helper"}] } ELSE {})
@@ -155,7 +157,7 @@ Skeleton(f, assign, d) ==
 (***************************************************************************)
 Norm(o) == [id |-> o.id, qid |-> o.qid, name |-> o.name, cls |-> o.cls, parent |-> o.parent, priv |-> o.priv,
             incontents |-> o.incontents, inall |-> o.inall, bases |-> o.bases, mro |-> o.mro, subclasses |-> Range(o.subclasses),
-            doc |-> o.doc, docsrc |-> o.docsrc, xrefs |-> {}, sumrefs |-> {}, annrefs |-> {}, sigrefs |-> {},
+            doc |-> o.doc, docsrc |-> o.docsrc, module |-> o.module, xrefs |-> {}, sumrefs |-> {}, annrefs |-> {}, sigrefs |-> {},
             initial |-> o.initial, dupname |-> o.dupname, dupfull |-> o.dupfull]
 FromProjection(c) == [objs |-> [i \in DOMAIN c.objs |-> Norm(c.objs[i])], roots |-> c.roots, depth |-> c.depth]
 
@@ -287,9 +289,15 @@ RECURSIVE SideItems(_, _)
 SideItems(ob, level) ==
   LET direct == VisContents(ob) \cup (IF IsCls(ob) THEN {c \in Inherited(ob) : ~IsOwn(c)} ELSE {})   \* :146 only Function / Attribute lists
   IN direct \cup (IF level < M.depth THEN UNION {SideItems(c, level + 1) : c \in {c \in VisContents(ob) : IsOwn(c)}} ELSE {})
-SideSections(p) == {p} \cup (IF IsMod(p) THEN (IF Objs[p].parent = None THEN {} ELSE {Objs[p].parent}) ELSE {ModuleOf(p)})
+\* sidebar.py:54 the second section of a class page is ob.module = Documentable.parentMod, which reparent() updates for the
+\* moved object only: everything BELOW a re-exported class keeps the module it was defined in (field `module` of the
+\* projected System; "auto" in the skeleton, where nothing lies below a moved class).  With the fix of
+\* sidebar-names-hidden-origin-module the section is the module the object is in now.
+ModuleSeen(p) == IF Objs[p].module = "auto" \/ Objs[p].module \notin Ids \/ Fx("sidebar-names-hidden-origin-module")
+                 THEN ModuleOf(p) ELSE Objs[p].module
+SideSections(p) == {p} \cup (IF IsMod(p) THEN (IF Objs[p].parent = None THEN {} ELSE {Objs[p].parent}) ELSE {ModuleSeen(p)})
 SideListed(p) == UNION {SideItems(s, 1) : s \in SideSections(p)}
-SidebarTitle(p, pf) == {L(pf, Url(s), "sidebarTitle") : s \in SideSections(p)}                      \* sidebar.py:82
+SidebarTitle(p, pf) == {L(pf, Url(s), "sidebarTitle") : s \in Linkable(SideSections(p))}                      \* sidebar.py:82
 SidebarItem(p, pf) == {L(pf, PL(c, p), "sidebarItem") : c \in SideListed(p)}                            \* sidebar.py:379
 
 NavTargets == {"index", "moduleIndex", "classIndex", "nameIndex"}                                     \* nav.html, footer.html
@@ -308,6 +316,7 @@ ObjPageEntries(p) ==
   {E(pf, "overridesNote", Url(c), FALSE) : c \in OverridesNoted(p)} \cup
   {E(pf, "table", PL(c, p), MarkedPrivate(c)) : c \in VisContents(p) \cup (IF IsCls(p) THEN Inherited(p) ELSE {})}   \* table.py:30
   \cup {E(pf, "detail", [file |-> pf, frag |-> Objs[c].name], MarkedPrivate(c)) : c \in Methods(p)}                  \* attributechild.py:33
+  \cup {E(pf, "sidebarTitle", Url(s), FALSE) : s \in SideSections(p)}     \* the section title names s, linked or not
   \cup {E(pf, "sidebar", PL(c, p), IsPrivate(c)) : c \in SideListed(p)}                                                \* sidebar.py:329
 
 \* ---- summary.py
@@ -451,7 +460,10 @@ AllObjectsProds == {"nameIndex", "undocced", "classIndex", "searchDoc"}
 KF_SupersededListed(O, l) == l.prod \in AllObjectsProds /\ IsSupersededUrl(O, l.file, l.frag)
 \* ... linked as a base class / inherited member / override (class A(A) redefinition idiom), and the subclass of a
 \* superseded ancestor never enters classIndex.html, so its "View In Hierarchy" anchor is missing
-KF_SupersededNotRendered(O, l) == \/ (l.prod \notin AllObjectsProds /\ IsSupersededUrl(O, l.file, l.frag))
+\* (only the links that FOLLOW FROM the class hierarchy: a docstring / annotation reference that lands on a superseded
+\* object - names are never resolved to one - is not part of this finding)
+HierarchyProds == {"classSignature", "baseName", "baseTable", "sidebarItem", "subclasses", "overrides", "overridesNote", "overriddenIn"}
+KF_SupersededNotRendered(O, l) == \/ (l.prod \in HierarchyProds /\ IsSupersededUrl(O, l.file, l.frag))
                                   \/ (l.prod = "inhierarchy" /\ l.file = "classIndex" /\ l.frag \in DOMAIN O
                                       /\ \E b \in O[l.frag].mro : b \in Superseded(O))
 \* inherited docstring: "#frag" made for the source's page, rendered on the inheriting member's page
@@ -467,6 +479,9 @@ KF_HiddenRootListed(O, l) == l.prod \in {"moduleIndex", "indexRoots"} /\ \E r \i
 \* the docstring was rendered; sidebar.py rebuilds the ToC (fresh ids) for every ObjContent, also on other pages
 KF_TocBackrefStale(l) == l.prod = "tocBackref" /\ l.file = l.page /\ l.frag # ""
 
+\* the title of the second sidebar section names the HIDDEN module a nested class was defined in before its enclosing
+\* class was re-exported
+KF_SidebarTitleHidden(O, multi, l) == l.prod = "sidebarTitle" /\ Targets(O, multi, l.file, l.frag)
 \* get_override_info() writes "overrides <full name>" although the overridden member is hidden
 KF_OverridesNoteHidden(O, multi, l) == l.prod = "overridesNote" /\ Targets(O, multi, l.file, l.frag)
 \* Module.privacyClass answers PRIVATE for a module named __main__ before the rules are consulted: a rule that hides it
@@ -478,6 +493,7 @@ KF_MainIgnoresRules(O, f, g) == \E i \in MainHidden(O) : (O[i].file = f /\ (O[i]
 
 KfLink(O, S, multi, l) == IF KF_EncodedFilename(S, l.file) THEN "percent-encoded-page-filename"
                           ELSE IF KF_OverridesNoteHidden(O, multi, l) THEN "overrides-note-names-hidden-member"
+                          ELSE IF KF_SidebarTitleHidden(O, multi, l) THEN "sidebar-names-hidden-origin-module"
                           ELSE IF KF_TocBackrefStale(l) THEN "toc-backref-stale-id"
                           ELSE IF KF_SupersededListed(O, l) THEN "superseded-duplicate-listed"
                           ELSE IF KF_InheritedDocLink(O, l) THEN "inherited-docstring-samepage-link"
